@@ -2,6 +2,7 @@
 from __future__ import annotations
 
 import ast
+import re
 from typing import Dict, FrozenSet, Iterable, List, Optional, Set, Tuple
 
 from .cfg import CFG, CFGNode
@@ -214,6 +215,19 @@ def unbound_witness(cfg: CFG, var: str, use: CFGNode, correlated: bool = True, l
     return feasible_path(cfg, cfg.entry, use, block_edge=block, correlated=correlated, limit=limit)
 
 
+ENUMS: Dict[str, List[str]] = {}  # enum class name -> member names (filled by Index)
+_ENUM_ATOM = re.compile(r"^(.+) == ((?:\w+\.)*(\w+))\.(\w+)$")
+
+
+def _enum_exhausted(a: Dict[str, bool], txt: str) -> bool:
+    """True if `txt` (a false atom `L == E.m`) completes the refutation of every member of enum E for L."""
+    m = _ENUM_ATOM.match(txt)
+    if not m or m.group(3) not in ENUMS:
+        return False
+    lhs, prefix = m.group(1), m.group(2)
+    return all(a.get(f"{lhs} == {prefix}.{mem}") is False for mem in ENUMS[m.group(3)])
+
+
 def feasible_path(
     cfg: CFG,
     src: CFGNode,
@@ -288,6 +302,9 @@ def feasible_path(
                             clash = True
                             break
                         a[txt] = val
+                        if val is False and _enum_exhausted(a, txt):
+                            clash = True  # an if-chain over every member of an Enum has no fall-through
+                            break
                     if clash:
                         continue
                 st = (s, frozenset(a.items()))
